@@ -2,10 +2,13 @@
    delivered last for that pod (the identification used when the implementation's observable is
    judged: Codec.mk_pinfo / ghost_matches). *)
 From Coq Require Import List ZArith Bool Lia.
-From Verif Require Import Lib.Vec2 C01.Model C01.Spec C01.Codec C01.Proofs_Base C01.Proofs_PodList
+From Verif Require Import Lib.VecN C01.Model C01.Spec C01.Codec C01.Proofs_Base C01.Proofs_PodList
   C01.Proofs_Sections C01.Proofs_Pods C01.Proofs_Main C01.Proofs_Conc.
 Import ListNotations.
 Open Scope Z_scope.
+
+Section WithDim.
+Context {D : Dim}.
 
 Definition key (pi : pinfo) : vec * vec := (pi_areq pi, pi_anp pi).
 Definition pkey (p : pod) : vec * vec := (p_req p, p_npreq p).
@@ -569,3 +572,5 @@ Proof.
   destruct (HG _ _ _ Hk) as (p & Hl & E). rewrite Hl. unfold key, pkey in E. injection E as E1 E2.
   rewrite E1, E2, !veqb_refl. reflexivity.
 Qed.
+
+End WithDim.
